@@ -669,6 +669,10 @@ func runHist(o *Out, thorough bool, withUC bool) {
 			p.Tight = true
 			p.Capacity, p.Limits = true, true
 		}
+		if ci%8 == 5 && !waitBias {
+			p = Profile{MaxStops: 5 + rng.Intn(4), MaxVehicles: 1 + rng.Intn(2), Precedence: true, ForceUnordered: true, InitialUnordered: true,
+				Windows: rng.Intn(2) == 0, NonMetric: rng.Intn(2) == 0, TD: rng.Intn(3) == 0, Mult: rng.Intn(3) == 0}
+		}
 		if ci%6 == 3 && !waitBias {
 			// mixing items everywhere: the no-mix estimate has to reason about what other units carry between positions
 			p = Profile{MaxStops: 6 + rng.Intn(5), MaxVehicles: 1 + rng.Intn(2), ForceMix: true, Precedence: rng.Intn(2) == 0,
@@ -676,7 +680,16 @@ func runHist(o *Out, thorough bool, withUC bool) {
 		}
 		if waitBias {
 			p = Profile{MaxStops: 4 + rng.Intn(5), MaxVehicles: 1 + rng.Intn(2), Windows: true, Waits: true, NonMetric: true,
-				TD: true, Limits: true, Tight: ci%2 == 0, ForceWindows: true, Precedence: ci%3 != 0, ForcePrec: ci%3 == 1, Trap: ci%3 == 2}
+				TD: ci%4 != 1, Limits: true, Tight: ci%2 == 0, ForceWindows: true, Precedence: ci%3 != 0, ForcePrec: ci%3 == 1, Trap: ci%3 == 2,
+				// duration groups: a member that waits keeps its START when a stranger is put in front of it but pays the group's
+				// duration again and ENDS later — what the latest estimates must see behind it
+				DurGroups: ci%4 == 1, ForceDurGroups: ci%4 == 1, Mult: ci%4 == 3}
+			if ci%4 == 1 {
+				// the duration-group quarter: no wait limits (the members are meant to wait), single-stop units only (the
+				// scripted prelude places them one by one), time-independent travel (the estimates' early exits are off otherwise)
+				p = Profile{MaxStops: 5 + rng.Intn(4), MaxVehicles: 1 + rng.Intn(2), Windows: true, NonMetric: rng.Intn(2) == 0,
+					Limits: rng.Intn(2) == 0, ForceDurGroups: true, DurGroups: true, Mult: rng.Intn(3) == 0}
+			}
 			if ci%5 == 4 {
 				// metric travel, declared so through the model API: the latest-start / latest-end exact checks are off, the wait
 				// limits are what un-planning has to re-validate (removing a stop makes the vehicle arrive earlier and wait longer)
@@ -685,6 +698,18 @@ func runHist(o *Out, thorough bool, withUC bool) {
 			}
 		}
 		c := genCase(rng, p)
+		if ci%8 == 6 && !waitBias && c.Dur != nil && len(c.Neutral) == 0 && len(c.Trap) == 0 && !c.ClaimMetric {
+			// coarse durations: many insertion positions cost exactly the same — the tie handling of the best-move search
+			// (the cheapest candidate rejected, an equally cheap one accepted) gets exercised
+			for i := range c.Dur {
+				for j := range c.Dur[i] {
+					if i != j {
+						c.Dur[i][j] = 300 * (1 + c.Dur[i][j]/300)
+					}
+				}
+			}
+			c.feature("tie-heavy")
+		}
 		hc := &histCase{Case: c, Seed: rng.Int63()}
 		if withUC {
 			hc.UC = genUserConstraint(rng, c)
@@ -1020,11 +1045,35 @@ func runHistCase(o *Out, ci int, hc *histCase, nops int, distinct map[string]boo
 	if len(c.Trap) == 2 {
 		forced = []forcedOp{{true, c.Trap[1], 1}, {true, c.Trap[0], 2}, {false, c.Trap[1], 0}}
 	}
+	// duration group whose members wait (histw): members and the tight follower are planned one behind the other, so that
+	// the placements of every other unit BETWEEN two members are among those the sweep and the best-move oracle enumerate
+	if waitBias && len(c.DGScript) >= 3 {
+		forced = nil
+		for _, si := range c.DGScript {
+			forced = append(forced, forcedOp{true, si, 1})
+		}
+	}
+	if len(c.InitUnplan) > 0 {
+		forced = []forcedOp{{false, c.InitUnplan[0], 0}}
+	}
+	dgReported := false
 	for step := 0; step < nops; step++ {
 		var opDesc string
 		collLine := ""
 		before := snapOf(b, sol)
 		kind := rng.Intn(100)
+		if waitBias && len(c.DGScript) >= 3 && len(forced) == 0 && !dgReported {
+			dgReported = true
+			n := 0
+			for _, si := range c.DGScript {
+				if si < len(bt.model.Stops()) {
+					if st := sol.SolutionStop(bt.model.Stops()[si]); !st.IsZero() && st.IsPlanned() {
+						n++
+					}
+				}
+			}
+			o.Count(fmt.Sprintf("dg-script:planned-%d-of-%d", n, len(c.DGScript)))
+		}
 		if len(forced) > 0 && pending == nil {
 			kind = 45
 			if !forced[0].plan {
@@ -2226,6 +2275,11 @@ func waitEstCorrespondence(o *Out, rec *recorder, mv nextroute.SolutionMoveStops
 		if to.IsPlanned() {
 			cArr, cEnd = to.ArrivalValue(), to.EndValue()
 			cPrev = acc[to.Previous().Index()]
+			if remaining == 0 && !timeDep && start <= to.StartValue() && end > cEnd {
+				// keeps its start (it waits) and ends later (it pays its duration group's duration now): the stops behind it
+				// are pushed although this one is "not pushed back"
+				o.Count("latest-est:planned-stop-keeps-start-ends-later")
+			}
 			if remaining > 0 && !timeDep && prevEnd+travel == cArr && end == cEnd {
 				o.Count("wait-est:unchanged-planned-stop-between-inserted-stops")
 				if mw > 0 || stopC != nil {
